@@ -63,7 +63,7 @@ type c06Report struct {
 }
 
 type c06State struct {
-	rctx async.Context
+	rctx *runClock
 
 	mu       sync.Mutex
 	reports  map[int]c06Report
@@ -190,7 +190,8 @@ func c06Run(s *scenario, run int, derived uint64) {
 		opts.ChannelWindowSize = units.Bytes(window)
 	}
 	timeout := s.runTimeout(10*time.Second, 20*time.Second)
-	st8 := &c06State{rctx: async.TimeoutContext(timeout), reports: map[int]c06Report{}}
+	st8 := &c06State{rctx: newRunClock(timeout, s.stallLimit()), reports: map[int]c06Report{}}
+	defer st8.rctx.stop()
 	lg := caplog.New()
 	srv, addr, why := startServer(mpx.HandleFunc(st8.handle), lg, opts)
 	if why != "" {
@@ -232,26 +233,14 @@ func c06Run(s *scenario, run int, derived uint64) {
 		}()
 	}
 	joined := waitGroup(&wg, st8.rctx.Wait(), 3*time.Second)
+	st8.rctx.stop()
 	timedOut := ""
 	if !joined || st8.rctx.Done() {
 		timedOut = "timeout-channels"
 	}
 
-	// Sibling handlers report how they ended; the close frames may still be on their way.
-	if timedOut == "" {
-		deadline := time.Now().Add(5 * time.Second)
-		for time.Now().Before(deadline) {
-			st8.mu.Lock()
-			got := len(st8.reports)
-			st8.mu.Unlock()
-			if got >= siblings || conn.Closed().IsSet() {
-				break
-			}
-			time.Sleep(2 * time.Millisecond)
-		}
-	}
-
-	// The connection must still serve a new channel.
+	// The connection must still serve a new channel. Frames travel in order, so once this round
+	// trip is through, the server has seen every frame the channels above have sent.
 	closed := conn.Closed().IsSet()
 	final := ""
 	if timedOut == "" {
@@ -259,6 +248,23 @@ func c06Run(s *scenario, run int, derived uint64) {
 	}
 	if conn.Closed().IsSet() {
 		closed = true
+	}
+
+	// Sibling handlers report how they ended.
+	if timedOut == "" && !closed {
+		deadline := time.Now().Add(3 * time.Second)
+		for time.Now().Before(deadline) {
+			st8.mu.Lock()
+			got := len(st8.reports)
+			if _, ok := st8.reports[n]; ok {
+				got-- // the round trip channel
+			}
+			st8.mu.Unlock()
+			if got >= siblings || conn.Closed().IsSet() {
+				break
+			}
+			time.Sleep(time.Millisecond)
+		}
 	}
 
 	// Shut down, then read the records.
@@ -331,13 +337,20 @@ func c06Run(s *scenario, run int, derived uint64) {
 		siblingsOK = false
 	}
 	if timedOut != "" {
+		// Name the channels that did not finish, or else the first sibling that saw the timeout.
 		var stuck []string
 		for i, res := range results {
 			if !joined && !res.finished && len(stuck) < 8 {
-				stuck = append(stuck, fmt.Sprint(i))
+				stuck = append(stuck, fmt.Sprintf("ch=%d", i))
 			}
 		}
-		viols = append(viols, timedOut+":"+token(strings.Join(stuck, ","), 40))
+		for i, res := range results {
+			if joined && strings.Contains(res.what, "timeout") {
+				stuck = append(stuck, fmt.Sprintf("ch=%d,%s", i, res.what))
+				break
+			}
+		}
+		viols = append(viols, timedOut+":"+token(strings.Join(stuck, ","), 80))
 	}
 
 	line := fmt.Sprintf("%s closed=%v libpanics=%d siblings_ok=%v handler_panics=%d %s want_panics=%d dblfree=%d ms=%d",
@@ -365,7 +378,7 @@ func (s *c06State) handle(cctx mpx.Context, ch mpx.Channel) status.Status {
 
 	switch beh {
 	case behEcho:
-		n, end := c06Echo(s.rctx, ch, first, -1)
+		n, end := s.echo(s.rctx, ch, first, -1)
 		s.mu.Lock()
 		s.reports[idx] = c06Report{n: n, end: end}
 		s.mu.Unlock()
@@ -379,26 +392,27 @@ func (s *c06State) handle(cctx mpx.Context, ch mpx.Channel) status.Status {
 	case behFree:
 		ch.Free()
 	case behEchoK:
-		c06Echo(cctx, ch, first, k)
+		s.echo(cctx, ch, first, k)
 	}
 	return status.OK
 }
 
-// c06Echo sends every received message back, at most limit messages when limit >= 0.
-func c06Echo(ctx async.Context, ch mpx.Channel, first []byte, limit int) (int, string) {
+// echo sends every received message back, at most limit messages when limit >= 0.
+func (s *c06State) echo(ctx async.Context, ch mpx.Channel, first []byte, limit int) (int, string) {
 	msg, n := first, 0
 	for {
 		if limit >= 0 && n >= limit {
 			return n, "limit"
 		}
 		if st := ch.Send(ctx, msg); !st.OK() {
-			return n, "send:" + string(st.Code)
+			return n, "send:" + s.rctx.code(st)
 		}
+		s.rctx.tick()
 		n++
 		var st status.Status
 		msg, st = ch.Receive(ctx)
 		if !st.OK() {
-			return n, "recv:" + string(st.Code)
+			return n, "recv:" + s.rctx.code(st)
 		}
 	}
 }
@@ -413,7 +427,7 @@ func (s *c06State) sibling(conn mpx.Conn, p *c06Plan, res *c06Result) string {
 
 	ch, st := conn.Channel(s.rctx)
 	if !st.OK() {
-		return "open-error:" + string(st.Code)
+		return "open-error:" + s.rctx.code(st)
 	}
 	defer ch.Free()
 
@@ -430,9 +444,10 @@ func (s *c06State) sibling(conn mpx.Conn, p *c06Plan, res *c06Result) string {
 		for j := range msgs {
 			data, st := ch.Receive(rc)
 			if !st.OK() {
-				recv <- fmt.Sprintf("recv-error@%d:%s", j, st.Code)
+				recv <- fmt.Sprintf("recv-error@%d:%s", j, s.rctx.code(st))
 				return
 			}
+			s.rctx.tick()
 			if !bytes.Equal(data, msgs[j]) {
 				recv <- c06Mismatch(msgs, j, data, p.idx)
 				return
@@ -444,10 +459,11 @@ func (s *c06State) sibling(conn mpx.Conn, p *c06Plan, res *c06Result) string {
 	what := ""
 	for i, m := range msgs {
 		if st := ch.Send(s.rctx, m); !st.OK() {
-			what = fmt.Sprintf("send-error@%d:%s", i, st.Code)
+			what = fmt.Sprintf("send-error@%d:%s", i, s.rctx.code(st))
 			rc.Cancel()
 			break
 		}
+		s.rctx.tick()
 		c06Pace(rng)
 	}
 	if w := <-recv; what == "" {
@@ -461,7 +477,7 @@ func (s *c06State) sibling(conn mpx.Conn, p *c06Plan, res *c06Result) string {
 	data, ok, st := ch.ReceiveAsync(s.rctx)
 	switch {
 	case !st.OK():
-		return "ended-early:" + string(st.Code)
+		return "ended-early:" + s.rctx.code(st)
 	case ok:
 		return c06Mismatch(msgs, len(msgs), data, p.idx)
 	}
@@ -512,6 +528,7 @@ func (s *c06State) other(conn mpx.Conn, p *c06Plan, res *c06Result) {
 			if _, st := ch.Receive(rc); !st.OK() {
 				return
 			}
+			s.rctx.tick()
 		}
 	}()
 
@@ -524,7 +541,11 @@ func (s *c06State) other(conn mpx.Conn, p *c06Plan, res *c06Result) {
 			ch.SendAndClose(s.rctx, m)
 			break
 		}
-		ch.Send(s.rctx, m)
+		if st := ch.Send(s.rctx, m); !st.OK() && s.rctx.code(st) == "timeout" {
+			res.what = fmt.Sprintf("send-timeout@%d,beh=%d,mode=%d", i, p.beh, p.mode)
+			break
+		}
+		s.rctx.tick()
 		c06Pace(rng)
 	}
 
@@ -545,7 +566,7 @@ func c06Pace(rng *hx.Rand) {
 
 // c06RoundTrip opens one more echo channel on the connection; it returns "" on success.
 func c06RoundTrip(conn mpx.Conn, idx int, seed uint64) string {
-	ctx := async.TimeoutContext(5 * time.Second)
+	ctx := async.TimeoutContext(10 * time.Second)
 	defer ctx.Free()
 	ch, st := conn.Channel(ctx)
 	if !st.OK() {
